@@ -400,8 +400,25 @@ func init() {
 			if tier == "thorough" {
 				depth, maxVar = 3, 60
 			}
-			return []core.Sub{{Name: "navigation", N: len(names), Note: fmt.Sprintf("146 types x covering instances (depth %d, <=%d variants)", depth, maxVar), Run: func(i int, r *core.Rec) {
-				tn := names[i]
+			return []core.Sub{
+				// all types in ONE process, before the per-type sweep touched anything in this worker: whatever the library
+				// remembers about one type (a memo keyed by a name that is not unique across types) shows on a later type
+				{Name: "all-types-in-one-process", N: 1, Note: "the first 2 variants of all 146 types in one process: un-indexed and fully indexed navigation and the value of every primitive", Run: func(_ int, r *core.Rec) {
+					for _, tn := range names {
+						c02Navigate(r, names, tn, 2, 2, true)
+					}
+				}},
+				{Name: "navigation", N: len(names), Note: fmt.Sprintf("146 types x covering instances (depth %d, <=%d variants)", depth, maxVar), Run: func(i int, r *core.Rec) {
+					c02Navigate(r, names, names[i], depth, maxVar, false)
+				}}}
+		},
+	})
+}
+
+func c02Navigate(r *core.Rec, names []string, tn string, depth, maxVar int, light bool) {
+	{
+		{
+			{
 				family := lib.Family(tn, depth, maxVar)
 				if tn == "Patient" {
 					family = append(family, c02MixedPatient())
@@ -508,6 +525,9 @@ func init() {
 							// exactly one step indexed
 							prefix := []*c02Node{root}
 							for s := range names {
+								if light {
+									break
+								}
 								prefix = c02Expand(prefix, names[s])
 								idxs := map[int]bool{0: true, 1: true, len(prefix) - 1: true, len(prefix): true}
 								for idx := range idxs {
@@ -541,7 +561,7 @@ func init() {
 						}
 						// negative names, once per message type of this resource
 						for _, n := range nodes {
-							if n.md == nil || seenMD[n.md.FullName()] {
+							if light || n.md == nil || seenMD[n.md.FullName()] {
 								continue
 							}
 							seenMD[n.md.FullName()] = true
@@ -622,6 +642,9 @@ func init() {
 					full(tn, root)
 					// the resource is the caller's: after it re-packed a contained resource in place, an expression compiled
 					// before sees the new content (nothing about the old content may stick to the compiled expression)
+					if light {
+						continue
+					}
 					if cl, ok := proto.Clone(res).(fhir.Resource); ok {
 						cf := cl.ProtoReflect().Descriptor().Fields().ByName("contained")
 						if cf != nil && cf.IsList() && cl.ProtoReflect().Get(cf).List().Len() > 0 {
@@ -679,9 +702,9 @@ func init() {
 						}
 					}
 				}
-			}}}
-		},
-	})
+			}
+		}
+	}
 }
 
 func c02BadClass(name string) string {
